@@ -78,8 +78,11 @@ type sstate struct {
 	calls []*scall
 }
 
+// ssub maps the digit of a thread op to the structured subscriber id (see subIDs in dist_test.go).
+func ssub(op string) string { return subIDs[int(op[1]-'1')] }
+
 func sdo(st *sstate, op string) string {
-	sub := "s" + op[1:]
+	sub := ssub(op)
 	ctx := context.Background()
 	switch op[0] {
 	case 'A', 'M':
@@ -130,7 +133,7 @@ func (sc sscen) scenario() *sched.Scenario {
 				ti, ops := ti, ops
 				x.Thread(fmt.Sprintf("T%d", ti), func() {
 					for _, op := range ops {
-						c := &scall{th: ti, op: op, sub: "s" + op[1:]}
+						c := &scall{th: ti, op: op, sub: ssub(op)}
 						st.calls = append(st.calls, c)
 						c.res = sdo(st, op)
 						c.finished = true
@@ -148,7 +151,7 @@ func checkSsched(st *sstate) []sched.Viol {
 	add := func(kind, site, f string, a ...any) {
 		vs = append(vs, sched.Viol{Kind: kind, Site: site, Detail: fmt.Sprintf(f, a...)})
 	}
-	subs := []string{"s1", "s2", "s3"}
+	subs := subIDs[:3]
 	mem := map[string]string{}
 	rec := map[string]string{}
 	for _, s := range subs {
@@ -193,7 +196,7 @@ func checkSsched(st *sstate) []sched.Viol {
 	for _, ops := range st.sc.threads {
 		for _, op := range ops {
 			if op[0] == 'R' {
-				released["s"+op[1:]] = true
+				released[ssub(op)] = true
 			}
 		}
 	}
